@@ -74,14 +74,12 @@ variable (σ : St) (t : Nat)
 @[simp] theorem sendDropTail_mgr : (sendDropTail σ t).mgr = σ.mgr := by
   unfold sendDropTail; repeat' split
   all_goals rfl
-theorem mgrDone_mgr (k : MK) : (mgrDone σ t k).mgr = if k.isRmTokFree then σ.mgr.released else σ.mgr := by
-  cases k <;> unfold mgrDone <;> simp only [MK.isRmTokFree] <;> (repeat' split)
+@[simp] theorem mgrDone_mgr (k : MK) : (mgrDone σ t k).mgr = σ.mgr := by
+  unfold mgrDone; simp only []; repeat' split
   all_goals first
     | rfl
+    | (simp only [sendDone_mgr, recvDropTail_mgr, sendDropTail_mgr]; done)
     | (simp only [sendDone_mgr, recvDropTail_mgr, sendDropTail_mgr]; rfl)
-    | (rename_i h; exact absurd trivial h)
-@[simp] theorem mgrDone_mgr' (k : MK) (h : k.isRmTokFree = false) : (mgrDone σ t k).mgr = σ.mgr := by
-  rw [mgrDone_mgr, h]; rfl
 @[simp] theorem startNotify2_mgr : (stepRun.startNotify2 σ t).mgr = σ.mgr := rfl
 end helpers
 
@@ -98,13 +96,11 @@ def PC.mgrSrc : PC → Bool
 /-- program points that carry a fact about the manager or hold one of its mutexes -/
 def PC.mgrPhase : PC → Bool
   | .u2 _ _ | .u3 _ _ | .gt2 _ | .f2 _ | .f3 _ | .f4 _ _ _ | .f5 _ | .f7 _ | .f8 _ | .f9 _ _ | .f10 _ => true
-  | .f1 k _ => k.isRmTokFree
   | _ => false
 
 /-- static well-formedness: which continuation a manager sub-program may carry -/
 def PC.mgrOK : PC → Bool
-  | .u1 k | .u2 k _ | .u3 k _ | .gt1 k | .gt2 k => !k.isRmTokFree && !k.isRm1
-  | .f3 k | .f4 k _ _ | .f5 k | .f8 k | .f9 k _ | .f10 k => !k.isRmTokFree
+  | .u1 k | .u2 k _ | .u3 k _ | .gt1 k | .gt2 k => !k.isRm1
   | _ => true
 
 set_option maxHeartbeats 1000000 in
